@@ -207,12 +207,31 @@ async fn start_relay(target: std::net::SocketAddr, rec: Arc<Mutex<Vec<u8>>>) -> 
 /// `dribble`: what the client sends first is forwarded one octet at a time, 30 ms apart, for its first three octets (TCP
 /// promises no more: a segment may carry a single octet).  `port`: the relay listens there (0 = any free port).
 async fn start_relay_opt(target: std::net::SocketAddr, rec: Arc<Mutex<Vec<u8>>>, dribble: bool, port: u16) -> PResult<u16> {
+    start_relay_full(target, rec, dribble, port, false, 0).await
+}
+
+/// `cutfirst`: the first connection through the relay is torn down as soon as the client has sent something (a middlebox or a
+/// restarting peer closing the connection after the ClientHello); later connections are relayed.  `hold_ms`: the first thing
+/// the server sends on each connection reaches the client that much later (a slow path).
+async fn start_relay_full(target: std::net::SocketAddr, rec: Arc<Mutex<Vec<u8>>>, dribble: bool, port: u16, cutfirst: bool, hold_ms: u64) -> PResult<u16> {
     let l = TcpListener::bind(("127.0.0.1", port)).await.map_err(|e| format!("bind {}: {}", port, e))?;
     let port = l.local_addr().map_err(|e| e.to_string())?.port();
     tokio::spawn(async move {
+        let mut nconn = 0usize;
         loop {
-            let (c, _) = match l.accept().await { Ok(x) => x, Err(_) => return };
+            let (mut c, _) = match l.accept().await { Ok(x) => x, Err(_) => return };
+            nconn += 1;
             let rec = Arc::clone(&rec);
+            if cutfirst && nconn == 1 {
+                tokio::spawn(async move {
+                    let mut buf = [0u8; 4096];
+                    if let Ok(n) = c.read(&mut buf).await {
+                        rec.lock().unwrap().extend_from_slice(&buf[..n]);
+                    }
+                    drop(c);
+                });
+                continue;
+            }
             tokio::spawn(async move {
                 let s = match TcpStream::connect(target).await { Ok(s) => s, Err(_) => return };
                 let (mut cr, mut cw) = c.into_split();
@@ -240,10 +259,17 @@ async fn start_relay_opt(target: std::net::SocketAddr, rec: Arc<Mutex<Vec<u8>>>,
                 });
                 let down = tokio::spawn(async move {
                     let mut buf = [0u8; 4096];
+                    let mut held = hold_ms == 0;
                     loop {
                         match sr.read(&mut buf).await {
                             Ok(0) | Err(_) => { let _ = cw.shutdown().await; return; }
-                            Ok(n) => { if cw.write_all(&buf[..n]).await.is_err() { return; } }
+                            Ok(n) => {
+                                if !held {
+                                    held = true;
+                                    tokio::time::sleep(Duration::from_millis(hold_ms)).await;
+                                }
+                                if cw.write_all(&buf[..n]).await.is_err() { return; }
+                            }
                         }
                     }
                 });
@@ -274,10 +300,14 @@ pub fn tls_cell(st: &State, t: &mut Toks) -> PResult<String> {
     let mut relisten = false;
     let mut dribble = false;
     let mut relay_port: u16 = 0;
+    let mut cutfirst = false;
+    let mut hold_ms: u64 = 0;
     while let Ok(tok) = t.next() {
         match tok {
             "relisten" => relisten = true,
             "dribble" => dribble = true,
+            "cutfirst" => cutfirst = true,
+            p if p.starts_with("hold=") => hold_ms = p[5..].parse().map_err(|_| "hold".to_string())?,
             p if p.starts_with("port=") => relay_port = p[5..].parse().map_err(|_| "port".to_string())?,
             other => return Err(format!("tls cell option {}", other)),
         }
@@ -290,7 +320,7 @@ pub fn tls_cell(st: &State, t: &mut Toks) -> PResult<String> {
             tokio::time::sleep(Duration::from_millis(120)).await;
         }
         let rec = Arc::new(Mutex::new(Vec::new()));
-        let port = match start_relay_opt(addr, Arc::clone(&rec), dribble, relay_port).await {
+        let port = match start_relay_full(addr, Arc::clone(&rec), dribble, relay_port, cutfirst, hold_ms).await {
             Ok(p) => p,
             // the fixed port is taken by something else on this machine: the cell cannot be run (reported, not judged)
             Err(e) if relay_port != 0 => return Ok(format!("TLS skipped {}", e.replace(' ', "_"))),
@@ -298,7 +328,7 @@ pub fn tls_cell(st: &State, t: &mut Toks) -> PResult<String> {
         };
         let mut client = DiameterClient::new(&format!("{}:{}", host, port), DiameterClientConfig { use_tls: client_tls, verify_cert: verify });
         let mut out = String::from("TLS");
-        let conn = tokio::time::timeout(Duration::from_millis(2500), client.connect()).await;
+        let conn = tokio::time::timeout(Duration::from_millis(2500 + 2 * hold_ms), client.connect()).await;
         match conn {
             Ok(Ok(mut h)) => {
                 out.push_str(" connect=ok");
